@@ -1,7 +1,7 @@
 #!/bin/bash
 # tools/all_seeds.sh [jobs] [name-filter] : run every kept seeded fault (/verif/seeded/*) against its property's quick check
 jobs="${1:-8}"; filt="${2:-}"
-for d in /verif/seeded/*${filt}*/; do grep -q masked_by_later_fix $d/meta.json && continue; p=$(python3 -c "import json,sys; m=json.load(open('$d/meta.json')); print(m.get('caught_by_property', m['property']))"); echo "$d $p"; done | xargs -P $jobs -L 1 bash -c 'r=$(/verif/tools/seeded.py $0 --props $1 2>&1); echo "$r" | python3 -c "
+for d in /verif/seeded/*${filt}*/; do grep -q "masked_by_later_fix\|not_caught" $d/meta.json && continue; p=$(python3 -c "import json,sys; m=json.load(open('$d/meta.json')); print(m.get('caught_by_property', m['property']))"); echo "$d $p"; done | xargs -P $jobs -L 1 bash -c 'r=$(/verif/tools/seeded.py $0 --props $1 2>&1); echo "$r" | python3 -c "
 import json,sys
 try:
     r=json.load(sys.stdin); k=[x for x in r if x.startswith(\"C\") and isinstance(r[x],dict)][0]
